@@ -43,6 +43,7 @@ Interpretation decisions (weaker reading where the statement is silent):
 """
 import json
 import os
+import re
 import vlib
 
 LEVEL = "exploration"
@@ -89,17 +90,31 @@ def generic_loc(loc):
     return not loc.startswith("src/")
 
 
+def msg_class(m):
+    """Panic message with the data taken out: digits are already '#'; quoted / back-quoted
+    fragments (they echo the input) are blanked; cut at 70 chars."""
+    m = re.sub(r"`[^`]*`?", "_", m or "")
+    m = re.sub(r"'[^']*'", "'_'", m)
+    return m.strip()[:70]
+
+
 def make_sig_of(by_key, shape_of):
-    """Signature of a rejected event: entry-point group + outcome + panic location
-    (`src/jq/parser.rs:216`); when the location is generic, the shape of the input too."""
+    """Signature of a rejected event: entry-point group + outcome + source FILE of the panic +
+    class of the panic message (line numbers shift with every unrelated commit, so the line
+    is reported in the text, not matched); when the location is generic (inside the standard
+    library, or a process death), the shape of the input too."""
     def sig_of(e, events=None, k=None):
         api = e.get("api", "")
         group = "cli" if api.startswith("cli:") else api.split(".")[0]
         if e.get("e") == "ret":
             r = e.get("r")
             if r in (-2, -3):
-                sig = {"group": group, "outcome": "panic" if r == -2 else "abort", "loc": e.get("loc", "")}
-                if generic_loc(sig["loc"]):
+                loc = e.get("loc", "")
+                sig = {"group": group, "api": api, "outcome": "panic" if r == -2 else "abort",
+                       "file": loc.rsplit(":", 1)[0] if ":" in loc else loc}
+                if r == -2:
+                    sig["msg"] = msg_class(e.get("msg", ""))
+                if generic_loc(loc):
                     sig["shape"] = shape_of(api, by_key.get((e.get("id"), api), {}))
                 return sig
             return {"group": group, "api": api, "outcome": "protocol_or_position", "r": r}
@@ -144,7 +159,7 @@ def triage_and_validate(ctx, trace_path, anomalies_path, label, selftest, shape_
                 continue
             seen.add(key)
             a = by_key.get((e["id"], e["api"]), {})
-            ctx.report(sig, "%s crashed: %s  input=%r" % (e["api"], str(a.get("msg", e.get("msg")))[:300],
+            ctx.report(sig, "%s crashed at %s: %s  input=%r" % (e["api"], e.get("loc"), str(a.get("msg", e.get("msg")))[:300],
                                                           (a.get("text") or a.get("prog") or "")[:200]),
                        replay_events=[e, a])
     # the first violation's replay file only has the events: add the input
@@ -232,4 +247,20 @@ def run(ctx):
     ]
 
 
-# MUTANTS: see the bottom of checks/c30.py (C19 and C30 were mutation-tested together).
+# MUTANTS (scratch worktree /tmp/wt-c19 = HEAD + the four hooks/FIX-*.patch, then all mutants
+# at once -- each has its own panic location / signature, so one `VERIF_REPO=/tmp/wt-c19 ./check C19`
+# run shows each of them separately; quick tier, exit 1; with the fixes applied no KNOWN-FINDING
+# signature of the unchanged tree fired any more, except where noted):
+#  M1 src/yaml/light.rs decode_double_quoted: bounds check `if i + 4 >= bytes.len()` for a truncated
+#     `\u` escape removed            -> CAUGHT  yaml.as_str panic at light.rs:5258 on `"\u"` (mutation d2tiny)
+#  M2 src/dsv/cursor.rs current_field: `.unwrap_or(self.text.len())` -> `len + 1` when the text ends
+#     with a quote (index without bounds check) -> CAUGHT  dsv.csv panic at cursor.rs:123 (TLC rejection, event 56)
+#  M3 src/jq/parser.rs string literal: backslash at end of input `None => Err(unterminated)` ->
+#     `self.peek().unwrap()`            -> CAUGHT  jq.parse panic at parser.rs:579 on the token soup `"\`
+#  M4 src/json/light.rs decode_escapes: surrogate look-ahead guard `i + 6 < bytes.len()` removed
+#                                        -> CAUGHT  json.as_str `index out of bounds` at light.rs:1431 on a document
+#     truncated after `\ud83d` (mutation d1).  Lesson: its second symptom (`range end index`) had the
+#     same file+message class as the known raw_bytes finding and was absorbed by it; signatures now carry
+#     the api (json.raw_strings vs json.as_str) as well.
+#  The three known findings of the unchanged tree (jq parser peek_str, JsonString::raw_bytes,
+#  stream_yaml flow mapping) are themselves "natural mutants": found by the first run of the check.
